@@ -99,6 +99,14 @@ class SSet(Sym):
             return SSet(lambda v: z3.And(a.member(v), z3.Not(b.member(v))))
         return NotImplemented
 
+    def cmpop(self, I, op, other, refl):
+        """set == set: the same members"""
+        if isinstance(other, SSet) and op in ("==", "!="):
+            v = I.ctx.fresh("seteq", U())
+            same = z3.ForAll([v], self.member(v) == other.member(v))
+            return same if op == "==" else z3.Not(same)
+        return NotImplemented
+
     def nonempty(self, ctx):
         v = ctx.fresh("setel", U())
         return z3.Exists([v], self.member(v))
